@@ -324,8 +324,12 @@ def singleton_protocol(repo):
     first = 'Some ' + mode if any(k == 'read' and not lk for (k, lk) in events[:il]) else 'None'
     second = 'Some ' + mode if any(k == 'read' and lk for (k, lk) in events[il:ic]) else 'None'
     rets = [(k, lk) for (k, lk) in events if k in ('retptr', 'retloc')]
-    if len(rets) != 1:
-        raise TranslateError('instance(): expected exactly one return statement')
+    if not rets:
+        raise TranslateError('instance(): no return statement found')
+    if len(set(rets)) != 1:
+        # several exits (e.g. an early return when the object exists) are one protocol step as long as they
+        # access the pointer in the same way under the same lock state
+        raise TranslateError('instance(): return statements that access the pointer in different ways')
     late_unlocked_read = any(k == 'read' and not lk for (k, lk) in events[ic:])
     if rets[0][0] == 'retptr':
         ret = f'RetRead {mode} {"true" if rets[0][1] else "false"}'
